@@ -37,7 +37,23 @@ type DynRoot struct {
 type CapList struct{ V []string }
 
 func (c *CapList) Capture(values []string) error {
+	for _, v := range values {
+		if v == "300" {
+			return fmt.Errorf("CapList does not take %q", v)
+		}
+	}
 	c.V = append(c.V, values...)
+	return nil
+}
+
+// CapElem is the element type of slices filled through Capture, one element per captured value.
+type CapElem struct{ V string }
+
+func (c *CapElem) Capture(values []string) error {
+	if values[0] == "300" {
+		return fmt.Errorf("CapElem does not take %q", values[0])
+	}
+	c.V = strings.Join(values, "")
 	return nil
 }
 
@@ -45,6 +61,9 @@ func (c *CapList) Capture(values []string) error {
 type TextList struct{ V []string }
 
 func (c *TextList) UnmarshalText(b []byte) error {
+	if string(b) == "300" {
+		return fmt.Errorf("TextList does not take %q", b)
+	}
 	c.V = append(c.V, string(b))
 	return nil
 }
@@ -184,6 +203,10 @@ func buildWith(g *gGrammar, k int, extra ...participle.Option) (b *built, err er
 				t = reflect.TypeOf((*CIface)(nil)).Elem()
 			case "cnodes":
 				t = reflect.SliceOf(reflect.TypeOf((*CIface)(nil)).Elem())
+			case "capts":
+				t = reflect.TypeOf([]CapElem{})
+			case "pcapts":
+				t = reflect.TypeOf([]*CapElem{})
 			case "textu":
 				t = reflect.TypeOf(TextList{})
 			case "pstring":
@@ -335,6 +358,10 @@ func canon(names map[reflect.Type]string, v reflect.Value, toks map[lexer.Positi
 			} else {
 				fmt.Fprintf(sb, "pos%d", toks[p])
 			}
+			return
+		}
+		if v.Type() == reflect.TypeOf(CapElem{}) {
+			fmt.Fprintf(sb, "%q", v.Field(0).String())
 			return
 		}
 		if v.Type() == reflect.TypeOf(TextList{}) {
